@@ -18,6 +18,7 @@ from . import common
 
 LEVEL = "exploration"
 H = "name a\nversion 1.0\ntarget g\n\n"
+H0 = "name a\nversion 1.0\n\n"     # template without a target
 FORMS = ["{P}", "-{P}", "2*{P}", "{P}+1", "2*{P}-1", "{P}/2", "1-{P}", "0.1*{P}", "0.75"]
 GATES = [("G", [0]), ("H", [1]), ("K", [0, 1]), ("G", [2]), ("K", [1, 2]), ("G", [1]), ("K", [1, 0])]
 VALUE_CLASSES = {"dyadic": [0.5, -1.25], "integer": [2, 7], "generic": [0.1, 1 / 3], "generic2": [1e-3, 3.141592653589793], "large": [123.456, -0.7]}
@@ -104,7 +105,8 @@ def case(c):
     import blackbird
     from blackbird.utils import match_template, TemplateError
     gs, fs, ps, vals, do_edits = c
-    src = H + body(gs, fs, ps)
+    notarget = (len(gs) + len("".join(fs)) + len(ps)) % 4 == 0     # a deterministic quarter of the templates has no target
+    src = (H0 if notarget else H) + body(gs, fs, ps)
     st, t = common.loads(src)
     if st == "exc":
         return [("C17/harness-template-does-not-load", common.exc_sig(t))], 0
@@ -122,7 +124,7 @@ def case(c):
         q = copy.deepcopy(inst)
         q.operations[:] = [copy.deepcopy(base_ops[i]) for i in perm]
         nmatch += 1
-        r = check_match(t, q, names, None, "reordering %r of %s with %r" % (list(perm), src[len(H):].replace("\n", " / "), v))
+        r = check_match(t, q, names, None, "reordering %r of %s with %r" % (list(perm), src.split(chr(10) * 2, 1)[1].replace("\n", " / "), v))
         if r:
             out.append(("C17/" + r[0], r[1]))
             break
@@ -143,23 +145,34 @@ def case(c):
                 edits.append(("swap-adjacent-dependent", lambda q, i=i: q.operations.__setitem__(slice(i, i + 2), [q.operations[i + 1], q.operations[i]])))
         edits.append(("change-version", lambda q: setattr(q, "_version", "1.1")))
         edits.append(("change-target", lambda q: q.target.__setitem__("name", "other")))
-        for name, f in edits:
-            q = edited(f)
+        edits.append(("remove-or-add-target", lambda q: q.target.__setitem__("name", None if q.target.get("name") else "g")))
+        for ne, (name, f) in enumerate(edits):
+            # the edit is applied to a program that has ALREADY been matched successfully (in place, or on a deep copy
+            # of the matched object): anything remembered from the first match must not survive the edit
+            q = copy.deepcopy(inst)
+            if ne % 3 != 2:
+                try:
+                    match_template(t, q)
+                except Exception:  # noqa  (reported by the reordering part above)
+                    pass
+                if ne % 3 == 1:
+                    q = copy.deepcopy(q)
+            f(q)
             if name == "change-version" and q.version == t.version:
                 continue      # the edit had no effect (internal attribute renamed): nothing to check
-            if name == "change-target" and q.target.get("name") == t.target.get("name"):
+            if name in ("change-target", "remove-or-add-target") and q.target.get("name") == t.target.get("name"):
                 continue
             pops = [(o["op"], list(o["modes"])) for o in q.operations]
-            still = name not in ("change-version", "change-target") and ref_instance_possible(tops, pops)
+            still = name not in ("change-version", "change-target", "remove-or-add-target") and ref_instance_possible(tops, pops)
             nmatch += 1
             try:
                 r = match_template(t, q)
                 if not still:
-                    out.append(("C17/edit-accepted:" + name, "%s on %s accepted, returned %r" % (name, src[len(H):].replace("\n", " / "), r)))
+                    out.append(("C17/edit-accepted:" + name, "%s on %s accepted, returned %r" % (name, src.split(chr(10) * 2, 1)[1].replace("\n", " / "), r)))
             except TemplateError:
                 pass
             except Exception as e:  # noqa
-                out.append(("C17/edit-wrong-exception:%s:%s" % (name, type(e).__name__), "%s on %s: %s" % (name, src[len(H):].replace("\n", " / "), common.exc_sig(e))))
+                out.append(("C17/edit-wrong-exception:%s:%s" % (name, type(e).__name__), "%s on %s: %s" % (name, src.split(chr(10) * 2, 1)[1].replace("\n", " / "), common.exc_sig(e))))
     return out, nmatch
 
 
@@ -193,7 +206,7 @@ def build(ctx):
                         continue
                     k += 1
                     cname, vals = classes[k % len(classes)]
-                    cases.append((gs, fs, ps, vals, n <= 2 or k % 4 == 0))
+                    cases.append((gs, fs, ps, vals, (n <= 2 and (ctx.quick is False or k % 2 == 0)) or (n > 2 and k % 8 == 0)))
     # deep structure: ALL gate/mode sequences of 4-5 (thorough 6) operations over 2 modes and 4 gate kinds (and, thorough, 5 operations
     # over 3 modes and 6 kinds); one parameter, constants elsewhere - what varies is the shape of the dependency graph
     two = [("R", [0]), ("R", [1]), ("BS", [0, 1]), ("S", [0])]
